@@ -234,7 +234,8 @@ def home_cases(ctx, shard, nshards):
     picks = [names[0], names[len(names) // 3], names[2 * len(names) // 3], names[-1]]
     idx = 0
     for name in picks:
-        for style in ("absolute", "relative", "relative-nested", "tilde", "trailing-slash"):
+        for style in ("absolute", "relative", "relative-nested", "tilde", "trailing-slash", "decoy-env",
+                      "copy-in-default-home"):
             if idx % nshards == shard:
                 yield dict(name=name, style=style)
             idx += 1
@@ -256,7 +257,25 @@ def home_body(ctx, case):
         os.makedirs(work)
         os.chdir(work)
         os.environ["HOME"] = home
+        decoys = {}
+        if case["style"] == "decoy-env":
+            # other variables that commonly name cache / data / temp directories must not take precedence
+            for var in ("XDG_CACHE_HOME", "XDG_DATA_HOME", "XDG_CONFIG_HOME", "TMPDIR", "SCIKIT_LEARN_DATA",
+                        "TRAFFIC_WEAVER_HOME", "TRAFFIC_WEAVER_CACHE", "LOCALAPPDATA", "APPDATA"):
+                d = os.path.join(root, "decoy-" + var.lower())
+                os.makedirs(d)
+                decoys[var] = os.environ.get(var)
+                os.environ[var] = d
+            saved.update(decoys)
+        if case["style"] == "copy-in-default-home":
+            # the dataset was fetched before, when the variable was not set: it sits in the default location
+            os.environ.pop("TRAFFIC_WEAVER_DATA", None)
+            first, _ = load_remote(name, False, True, payload, None)
+            if isinstance(first, Exception) or not rs.tree(home):
+                raise Violation(f"{name!r}: preparatory load into the default location failed: {first!r}")
         value, expect = {
+            "decoy-env": (os.path.join(root, "abs-cache"), os.path.join(root, "abs-cache")),
+            "copy-in-default-home": (os.path.join(root, "abs-cache"), os.path.join(root, "abs-cache")),
             "absolute": (os.path.join(root, "abs-cache"), os.path.join(root, "abs-cache")),
             "relative": ("rel-cache", os.path.join(work, "rel-cache")),
             "relative-nested": (os.path.join("project-data", "tw"), os.path.join(work, "project-data", "tw")),
@@ -265,11 +284,15 @@ def home_body(ctx, case):
         }[case["style"]]
         os.environ["TRAFFIC_WEAVER_DATA"] = value
         env = None
+        before = set(rs.tree(root))
         out, sim = load_remote(name, False, True, payload, env)
         if isinstance(out, Exception):
             raise Violation(f"{name!r} with TRAFFIC_WEAVER_DATA={value!r}: {type(out).__name__}: {out}")
+        if len(sim.calls) != 1:
+            raise Violation(f"{name!r} is not in the cache under TRAFFIC_WEAVER_DATA={value!r}, yet {len(sim.calls)} "
+                            f"downloads were attempted (expected exactly one)")
         inside = rs.tree(expect) if os.path.isdir(expect) else []
-        everything = [p for p in rs.tree(root)]
+        everything = [p for p in rs.tree(root) if p not in before]
         outside = [p for p in everything if not os.path.join(root, p).startswith(expect + os.sep)]
         if len(inside) != 1 or outside:
             raise Violation(f"TRAFFIC_WEAVER_DATA={value!r} (cwd {work}): expected exactly one cache file under {expect}, "
@@ -311,7 +334,7 @@ def spelling_body(ctx, case):
 def unknown_case(draw, ctx):
     names = [n for _, n in all_names()]
     base_name = names[draw(st.integers(0, len(names) - 1))]
-    how = draw(st.sampled_from(["typo", "prefix", "suffix", "empty", "attr", "case", "space"]))
+    how = draw(st.sampled_from(["typo", "prefix", "suffix", "empty", "attr", "case", "space", "tail", "tail", "middle"]))
     if how == "typo":
         i = draw(st.integers(0, len(base_name) - 1))
         bad = base_name[:i] + draw(st.sampled_from("xq7")) + base_name[i + 1:]
@@ -324,6 +347,18 @@ def unknown_case(draw, ctx):
     elif how == "attr":
         bad = draw(st.sampled_from(["sandvine_dataset_description", "mix_it_dataset_description", "dataset_description",
                                     "ams_ix_dataset_description", "ix_br_dataset_description", "load_dataset"]))
+    elif how in ("tail", "middle"):
+        # a documented name with leading (and, for 'middle', also trailing) components cut off at '-' / '_'
+        cuts = [i for i, ch in enumerate(base_name) if ch in "-_"]
+        if not cuts:
+            bad = base_name[1:]
+        else:
+            a = cuts[draw(st.integers(0, len(cuts) - 1))] + 1
+            bad = base_name[a:]
+            if how == "middle":
+                cuts2 = [i for i, ch in enumerate(bad) if ch in "-_"]
+                if cuts2:
+                    bad = bad[:cuts2[draw(st.integers(0, len(cuts2) - 1))]]
     elif how == "case":
         bad = base_name.upper()
     else:
